@@ -13,6 +13,8 @@ From PV.Model Require Import Pack Checksums.
 From PV.Base Require Import Prim Upd.
 From PV.Proofs Require Import PackProofs ChecksumsArithProofs PackGenProofs.
 From PV.Gen Require Import GenFun GenObj.
+From PV.Model Require PathTable.
+From PV.Proofs Require PathTableLemmas PathTableProofs.
 Import ListNotations.
 Local Open Scope Z_scope.
 
@@ -93,3 +95,60 @@ Theorem C03_recalculate_from_zero : forall C lens offs exts idxs,
   ((num_extents C lens, last_offset C lens),
    map snd (cached C lens), map fst (cached C lens), zrange 0 (zlen lens) 1).
 Proof. exact dr_recalculate_from_zero. Qed.
+
+(* ---- directory numbering and the path table: Model/PathTable.v --------------------------------------------------
+   (hand model of the breadth-first walk of _reassign_vd_dirrecord_extents -- directory extents, directory numbers,
+   parent numbers -- and of the order in which _write_directory_records emits the path table; tied by ptableleaf.py on
+   the ISO9660 and Joliet hierarchies of generated images).  For EVERY directory tree, of any size and depth: *)
+Section PathTableStatements.
+Import Prim Codec PathTable PathTableLemmas PathTableProofs.
+
+Theorem C03_directory_numbers : forall start t,
+  length (bfs start t) = tsize t /\
+  (forall i r, nth_error (bfs start t) i = Some r -> d_num r = Z.of_nat i + 1) /\
+  (exists rest, bfs start t = mk_dirrec 1 1 (tname t) (tblocks t) start [] [] :: rest) /\
+  (forall i r, nth_error (bfs start t) (S i) = Some r ->
+     exists p j, nth_error (bfs start t) (Z.to_nat (d_parent r - 1)) = Some p /\
+       d_num p = d_parent r /\ 1 <= d_parent r < d_num r /\
+       d_pos r = d_pos p ++ [j] /\ d_path r = d_path p ++ [d_name r]).
+Proof. exact PathTableProofs.bfs_numbers. Qed.
+
+Theorem C03_path_table_order : forall start t,
+  sorted_tree t = true ->
+  StronglySorted rlt (bfs start t) /\
+  (forall i j a b, (i < j)%nat -> nth_error (bfs start t) i = Some a ->
+     nth_error (bfs start t) j = Some b -> key_lt (rkey a) (rkey b)) /\
+  write_order t = map d_pos (bfs start t) /\
+  (forall i r, nth_error (bfs start t) i = Some r -> d_num r = Z.of_nat i + 1) /\
+  ptable start t = map rec_tuple (bfs start t).
+Proof. exact PathTableProofs.ptable_order. Qed.
+
+Theorem C03_path_table_reader_recovers_the_tree : forall start t,
+  reader_tree_of_ptable (ptable start t) = Some (map d_path (bfs start t)) /\
+  Permutation (map d_path (bfs start t)) (tree_paths [] t).
+Proof. exact PathTableProofs.reader_sound. Qed.
+
+Theorem C03_directory_extents_consecutive : forall start t,
+  chain start (bfs start t) /\
+  (forall i a b, nth_error (bfs start t) i = Some a -> nth_error (bfs start t) (S i) = Some b ->
+     d_extent b = d_extent a + d_blocks a) /\
+  assign_end start t = start + tree_blocks t /\
+  map (fun p : ptuple => snd (fst (fst p))) (ptable start t) = assign_extents start t /\
+  (blocks_okb t = true -> forall i j a b, (i < j)%nat ->
+     nth_error (bfs start t) i = Some a -> nth_error (bfs start t) j = Some b ->
+     d_extent a + d_blocks a <= d_extent b).
+Proof. exact PathTableProofs.extents_disjoint_consecutive. Qed.
+
+Theorem C03_tracked_path_table_size : forall start t order,
+  zlen (tname t) = 1 ->
+  Permutation order (map (fun r => zlen (d_name r)) (tl (bfs start t))) ->
+  fst (fold_left track_add order track_init) = ptable_size t.
+Proof. exact PathTableProofs.tracked_size_is_ptable_size. Qed.
+
+Theorem C03_path_table_ecma_order_refuted :
+  exists t start,
+  sorted_tree t = true /\
+  ~ (forall i j a b, (i < j)%nat -> nth_error (bfs start t) i = Some a ->
+       nth_error (bfs start t) j = Some b -> key_le_ecma (rkey a) (rkey b)).
+Proof. exact PathTableProofs.ptable_order_ecma_refuted. Qed.
+End PathTableStatements.
